@@ -773,12 +773,10 @@ class _Namespaces:
     def __delitem__(self, prefix):
         """deletes CSSNamespaceRule(s) with rule.prefix == prefix"""
         delrule = self.__findrule(prefix)
-        for i, rule in enumerate(
-            filter(lambda r: r.type == r.NAMESPACE_RULE, self.parentStyleSheet.cssRules)
-        ):
-            if rule == delrule:
-                self.parentStyleSheet.deleteRule(i)
-                return
+        if delrule is not None:
+            # by rule: its index among all rules of the sheet, not only @namespace
+            self.parentStyleSheet.deleteRule(delrule)
+            return
 
         self._log.error('Prefix %s not found.' % prefix, error=xml.dom.NamespaceErr)
 
